@@ -19,6 +19,7 @@
 import XotModel.Lemmas.FinvReach2
 import XotModel.Lemmas.FinvStable
 import XotModel.Lemmas.FinvValue7
+import XotModel.Lemmas.FinvComposite
 import XotModel.Lemmas.FinvReads
 import XotModel.Lemmas.FinvPrefix
 import XotModel.Lemmas.FinvIdIndex
@@ -2419,6 +2420,106 @@ example : (PStore.init Env.fresh).parsesOnOKTables fullCalls := by
 example :
     let s := (PStore.init Env.fresh).run [.parse .document "<r><e xml:id=\"i\"/></r>".toList]
     s.xmlIdNode 0 ['i'] = some 2 ∧ (s.run [.api (.call (.remove 2)), .api (.newNode (.element 2))]).xmlIdNode 0 ['i'] = none := by
+  decide +kernel
+
+end XotModel.Props
+
+
+/-! # ================================================================================================
+    # WHICH TEXT NODES A COMPOSITE CALL EXTENDS (branch wt-comp04)
+    # ================================================================================================
+
+  `C04_value_call` says of every call: a node that is not a target keeps its value, except that a text node may
+  have been extended.  For the moves `C04_value_exact_*` name the handles this can happen to.  The same for the
+  composite calls (Lemmas/FinvComposite.lean: the relation `Forest.VStep` with `T` = membership in an explicit
+  list, threaded through the steps the call consists of; every forest with the invariant, every argument, every
+  outcome):
+
+    replace(a, b)                     `Forest.replaceSites f a b`: `b` next to `a` - the call is `remove(a)` -: the previous
+                                      sibling of `a`.  Otherwise, with the subtree `a` taken out, the sites of the move of
+                                      `b` into the hole (`insert_after` the previous sibling `p` of `a`: the previous sibling
+                                      of `b`, the node `b` arrives behind, the node behind that, read after `b`'s old-site
+                                      merge; `prepend` when `a` was the first child), and the node standing before `a`'s
+                                      former next sibling after that move (the final `remove_consolidate_text_nodes`);
+    element_unwrap(n)                 `Forest.unwrapSites f n`: the node standing before the wrapper (it absorbs the
+                                      wrapper's first normal child, and the wrapper's right neighbour as well when that
+                                      child was the only one) and the wrapper's last child (it absorbs the right neighbour);
+                                      a wrapper without children: the call is `remove(n)`, the previous sibling of `n`;
+    remove_insignificant_whitespace   none: it only removes (consolidation is off around the loop);
+    map insert                        none: only the existing entry node of the key (the target) is rewritten.
+
+  What a site changes to is the value it has in the forest the C05 pair specification gives for the call
+  (`C05_pair_replace`: `specReplaceP a b f`, `C05_pair_unwrap`: `specUnwrapP n f`, Props/C05.lean): `mergeAdj` /
+  `mergeNew3` write `old ++ absorbed` into the surviving earlier node; here: the old content is a contiguous part
+  of the new one (`C04_replace_site_extended`, `C04_unwrap_site_extended`). -/
+
+namespace XotModel.Props
+open XotModel
+
+/-- ⟦C04_replace_extended_texts⟧ `replace(a, b)`, any arguments, any outcome: a handle live before and after that is
+    not in `replaceSites f a b` has exactly its old value - text nodes included. -/
+theorem C04_replace_extended_texts (f : Forest) (hi : f.Inv) (a b x : Nat) (v v' : Value)
+    (hv : f.value? x = some v) (hv' : (f.replace a b).1.value? x = some v')
+    (hx : x ∉ f.replaceSites a b) : v' = v := Forest.replace_value_exact hi a b hv hv' hx
+
+/-- … and a site is extended, not overwritten: same value, or text whose old content is a contiguous part of the
+    new one. -/
+theorem C04_replace_site_extended (f : Forest) (hi : f.Inv) (a b x : Nat) (v v' : Value)
+    (hv : f.value? x = some v) (hv' : (f.replace a b).1.value? x = some v') :
+    v' = v ∨ (x ∈ f.replaceSites a b ∧ Forest.TextExt v v') :=
+  (Forest.vstep_replace_sites (S := fun _ => False) f a b).site hi hv hv'
+
+/-- ⟦C04_unwrap_extended_texts⟧ `element_unwrap(n)`: only the node before the wrapper and the wrapper's last child
+    (`unwrapSites f n`) can change; every other surviving handle has exactly its old value. -/
+theorem C04_unwrap_extended_texts (f : Forest) (hi : f.Inv) (n x : Nat) (v v' : Value)
+    (hv : f.value? x = some v) (hv' : (f.elementUnwrap n).1.value? x = some v')
+    (hx : x ∉ f.unwrapSites n) : v' = v := Forest.elementUnwrap_value_exact hi n hv hv' hx
+
+theorem C04_unwrap_site_extended (f : Forest) (hi : f.Inv) (n x : Nat) (v v' : Value)
+    (hv : f.value? x = some v) (hv' : (f.elementUnwrap n).1.value? x = some v') :
+    v' = v ∨ (x ∈ f.unwrapSites n ∧ Forest.TextExt v v') :=
+  (Forest.vstep_elementUnwrap_sites (S := fun _ => False) f n).site hi hv hv'
+
+/-- ⟦C04_strip_extended_texts⟧ `remove_insignificant_whitespace` extends NO text node: every surviving handle has
+    exactly its old value. -/
+theorem C04_strip_extended_texts (f : Forest) (hi : f.Inv) (node x : Nat) (v v' : Value)
+    (hv : f.value? x = some v) (hv' : (f.removeInsignificantWhitespace node).value? x = some v') : v' = v :=
+  Forest.strip_value_exact hi node hv hv'
+
+/-- ⟦C04_mapInsert_extended_texts⟧ A map insertion (attribute or namespace view) extends no text node: every handle
+    other than the existing entry node of the key has exactly its old value. -/
+theorem C04_mapInsert_extended_texts (f : Forest) (hi : f.Inv) (k : Forest.MapKind) (e : Nat) (entry : Value)
+    (x : Nat) (v v' : Value) (hv : f.value? x = some v) (hv' : (f.mapInsert k e entry).1.value? x = some v')
+    (hx : ∀ n, f.mapGetNode k e (Forest.entryKey entry) = some n → n.handle ≠ x) : v' = v :=
+  Forest.mapInsert_value_exact hi k e entry hv hv' hx
+
+/-- Non-vacuity on `<e>w x <u>i j<k/>m</u> y z <v/></e>` (handles 0; 1, 2; 3; 4, 5, 6, 7; 8, 9; 10; adjacent text
+    nodes present), a parentless text `r` (11): `element_unwrap(u)` has the sites `x` (2) and `m` (7), which become
+    `xi` and `my`; `w`, `j`, `z` keep their content.  `replace(u, r)`: the site `x` becomes `xry` (three-way), `w` and
+    `z` stay; `replace(v, r)`: the site `z` becomes `zr`. -/
+def compWitness : Forest :=
+  { roots := [.node 0 (.element 2) [.node 1 (.text ['w']) [], .node 2 (.text ['x']) [],
+        .node 3 (.element 3) [.node 4 (.text ['i']) [], .node 5 (.text ['j']) [], .node 6 (.element 6) [],
+          .node 7 (.text ['m']) []],
+        .node 8 (.text ['y']) [], .node 9 (.text ['z']) [], .node 10 (.element 6) []], .node 11 (.text ['r']) []],
+    next := 12, consolidation := true, everOff := true }
+example : compWitness.Inv := (Forest.inv_iff _).mp (by decide)
+example : compWitness.unwrapSites 3 = [2, 7] ∧
+    (compWitness.elementUnwrap 3).1.value? 2 = some (.text ['x', 'i']) ∧
+    (compWitness.elementUnwrap 3).1.value? 7 = some (.text ['m', 'y']) ∧
+    (compWitness.elementUnwrap 3).1.value? 1 = some (.text ['w']) ∧
+    (compWitness.elementUnwrap 3).1.value? 5 = some (.text ['j']) ∧
+    (compWitness.elementUnwrap 3).1.value? 9 = some (.text ['z']) := by decide +kernel
+example : compWitness.replaceSites 3 11 = [2, 8, 2] ∧
+    (compWitness.replace 3 11).1.value? 2 = some (.text ['x', 'r', 'y']) ∧
+    (compWitness.replace 3 11).1.isLive 8 = false ∧
+    (compWitness.replace 3 11).1.value? 1 = some (.text ['w']) ∧
+    (compWitness.replace 3 11).1.value? 9 = some (.text ['z']) ∧
+    compWitness.replaceSites 10 11 = [9] ∧
+    (compWitness.replace 10 11).1.value? 9 = some (.text ['z', 'r']) ∧
+    (compWitness.replace 10 11).1.value? 8 = some (.text ['y']) := by decide +kernel
+example : (compWitness.removeInsignificantWhitespace 0).value? 2 = some (.text ['x']) ∧
+    ((compWitness.mapInsert .attributes 0 (.attribute 7 ['v'])).1.value? 2 = some (.text ['x'])) := by
   decide +kernel
 
 end XotModel.Props
